@@ -1089,8 +1089,10 @@ func proveSlice(b *ssa.BasicBlock, x *ssa.Slice) string {
 		k, ok := lowerBoundGuard(b, v)
 		return ok && k >= 0
 	}
-	lowOK := x.Low == nil || (nn(x.Low) && ge(x.Low))
-	highOK := x.High == nil || (nn(x.High) && ge(x.High))
+	// the index of a `for i := range s` loop is within [0, len(s))
+	rng := func(v ssa.Value) bool { return v != nil && rangeIndex(v, x.X) }
+	lowOK := x.Low == nil || rng(x.Low) || (nn(x.Low) && ge(x.Low))
+	highOK := x.High == nil || rng(x.High) || (nn(x.High) && ge(x.High))
 	// low <= high
 	orderOK := true
 	if x.Low != nil && x.High != nil {
